@@ -429,3 +429,118 @@ func VerifH_C07_redistribute() {
 	w.ReleaseInputs(nil, txns)
 	vapi.Assert("redistribute.release-restores", len(w.locked) == len(lockedBefore))
 }
+
+// ---- reload of stored broadcast sets, and SplitUTXO against a concurrent funding call ----
+
+type reloadCM struct {
+	vCM
+	added []BroadcastedSet // what the constructor handed to the pool: (basis, transactions)
+}
+
+func (c *reloadCM) AddV2PoolTransactions(basis types.ChainIndex, txns []types.V2Transaction) (bool, error) {
+	c.added = append(c.added, BroadcastedSet{Basis: basis, Transactions: txns})
+	return false, nil
+}
+
+type reloadStore struct {
+	vStore
+	sets []BroadcastedSet
+}
+
+func (s *reloadStore) BroadcastedSets() ([]BroadcastedSet, error) { return s.sets, nil }
+
+type nopSyncer struct{}
+
+func (nopSyncer) BroadcastV2TransactionSet(types.ChainIndex, []types.V2Transaction) error { return nil }
+
+// VerifH_C07_reload: a restarted wallet hands each stored broadcast set that is
+// still young enough back to the pool, with the basis the set was stored
+// with (its proofs are valid for that index and no other).
+//
+//verif:harness prop=C07 tier=quick replay=native go=skip require=reloaded bounds="0..2 stored broadcast sets, each with the current or an older basis, each young or older than the rebroadcast period"
+func VerifH_C07_reload() {
+	tip := types.ChainIndex{Height: 100, ID: types.BlockID{9}}
+	old := types.ChainIndex{Height: 97, ID: types.BlockID{7}}
+	cm := &reloadCM{vCM: vCM{tip: tip}}
+	st := &reloadStore{vStore: vStore{tip: tip}}
+	n := vapi.Int("sets", 0, 2)
+	var want []BroadcastedSet
+	for k := 0; k < n; k++ {
+		set := BroadcastedSet{Basis: tip, BroadcastedAt: time.Now().Add(-time.Hour), Transactions: []types.V2Transaction{{ArbitraryData: []byte{byte(k + 1)}}}}
+		if vapi.Bool("older-basis") {
+			set.Basis = old
+		}
+		if vapi.Bool("expired") {
+			set.BroadcastedAt = time.Now().Add(-100 * time.Hour)
+		} else {
+			want = append(want, set)
+		}
+		st.sets = append(st.sets, set)
+	}
+	w, err := NewSingleAddressWallet(types.NewPrivateKeyFromSeed(make([]byte, 32)), cm, st, nopSyncer{})
+	vapi.Assert("reload.constructed", err == nil && w != nil)
+	vapi.Assert("reload.exactly-the-young-sets", len(cm.added) == len(want))
+	for k := range want {
+		if k < len(cm.added) {
+			vapi.Assert("reload.with-the-sets-own-basis", cm.added[k].Basis == want[k].Basis)
+			vapi.Assert("reload.the-sets-own-transactions", len(cm.added[k].Transactions) == 1 && cm.added[k].Transactions[0].ID() == want[k].Transactions[0].ID())
+		}
+	}
+	vapi.Reach("reloaded")
+}
+
+type splitCM struct {
+	vCM
+}
+
+func (c *splitCM) AddV2PoolTransactions(basis types.ChainIndex, txns []types.V2Transaction) (bool, error) {
+	vapi.Yield() // validation and relay take time
+	c.v2 = append(c.v2, txns...)
+	return false, nil
+}
+func (c *splitCM) TipState() consensus.State {
+	return consensus.State{Index: c.tip, Network: &consensus.Network{}}
+}
+
+// VerifH_C07_split_race: SplitUTXO and a funding call at the same time never
+// hand out the same output.
+//
+//verif:harness prop=C07 tier=quick replay=interp go=sched preempt=2 require=split bounds="wallet of 2 mature outputs with symbolic values; SplitUTXO(2, min) concurrent with FundV2Transaction; every interleaving at the wallet's lock, the pool submission and the store within ≤2 delays"
+func VerifH_C07_split_race() {
+	priv := types.NewPrivateKeyFromSeed(make([]byte, 32))
+	addr := types.StandardUnlockHash(priv.PublicKey())
+	tip := types.ChainIndex{Height: 100, ID: types.BlockID{9}}
+	store, cm := &vStore{tip: tip}, &splitCM{vCM: vCM{tip: tip}}
+	w := &SingleAddressWallet{priv: priv, addr: addr, cm: cm, store: store, syncer: nopSyncer{},
+		cfg: config{ReservationDuration: time.Hour, DefragThreshold: 30, MaxInputsForDefrag: 30, MaxDefragUTXOs: 10, Log: zap.NewNop()}, log: zap.NewNop(),
+		locked: make(map[types.SiacoinOutputID]time.Time)}
+	for k := 0; k < 2; k++ {
+		v := 100000 + vapi.UBits("value", 16)
+		store.utxos = append(store.utxos, types.SiacoinElement{ID: utxoID(k), StateElement: types.StateElement{LeafIndex: uint64(k)},
+			SiacoinOutput: types.SiacoinOutput{Value: types.NewCurrency64(v), Address: addr}, MaturityHeight: 50})
+	}
+	var splitIn types.SiacoinOutputID
+	splitDone, splitOK := false, false
+	go func() {
+		// both outputs are above the minimum: ask for three so that one is split
+		txn, err := w.SplitUTXO(3, types.NewCurrency64(1000))
+		splitDone = true
+		if err == nil && len(txn.SiacoinInputs) == 1 {
+			splitOK = true
+			splitIn = txn.SiacoinInputs[0].Parent.ID
+		}
+	}()
+	vapi.Yield()
+	var fund types.V2Transaction
+	_, toSign, ferr := w.FundV2Transaction(&fund, types.NewCurrency64(5000), false)
+	left := vapi.WaitIdle()
+	vapi.Assert("split.no-goroutine-left", left == 0 && splitDone)
+	if splitOK {
+		vapi.Reach("split")
+		if ferr == nil {
+			for _, i := range toSign {
+				vapi.Assert("split.output-not-handed-out-twice", fund.SiacoinInputs[i].Parent.ID != splitIn)
+			}
+		}
+	}
+}
